@@ -56,10 +56,12 @@ type c51Eval struct {
 	method   string
 	dirs     map[string]map[string][]string // method -> helper -> constant bool args seen
 	problems []string
+	cur      *c51Fn // the function whose body is being read (for local aliases)
 }
 
 // tableOf finds the per-index field through which the receiver expression of a DML call is reached.
 func (ev *c51Eval) tableOf(x ast.Expr) string {
+	hops := 0
 	for {
 		switch y := ast.Unparen(x).(type) {
 		case *ast.SelectorExpr:
@@ -75,6 +77,17 @@ func (ev *c51Eval) tableOf(x ast.Expr) string {
 			x = y.X
 		case *ast.StarExpr:
 			x = y.X
+		case *ast.Ident:
+			// a local copy of the group or of one of its members (rc := index.RowCount)
+			if ev.cur == nil || hops > 4 {
+				return ""
+			}
+			ds := ev.cur.defs[ev.info.Uses[y]]
+			if len(ds) != 1 || ds[0].idx >= 0 {
+				return ""
+			}
+			hops++
+			x = ds[0].rhs
 		default:
 			return ""
 		}
@@ -92,11 +105,14 @@ func (ev *c51Eval) summarize(fn *types.Func, depth int) map[string]bool {
 	if fd == nil || fd.Body == nil || depth > 3 {
 		return s
 	}
+	saved := ev.cur
+	ev.cur = c51NewFn(ev.info, fd)
 	for _, call := range dmlCallsIn(fd.Body, true) {
 		for _, w := range ev.writesOfCall(call, depth+1, false) {
 			s[w.table] = true
 		}
 	}
+	ev.cur = saved
 	return s
 }
 
@@ -344,6 +360,7 @@ func c51DedupAlts(in []c51Alt) []c51Alt {
 // family evaluates the loop over the per-index groups of one DML method.
 func (ev *c51Eval) family(fd *ast.FuncDecl) (map[string]c51Alt, *ast.RangeStmt) {
 	ev.method = fd.Name.Name
+	ev.cur = c51NewFn(ev.info, fd)
 	fn, _ := ev.info.Defs[fd.Name].(*types.Func)
 	if fn == nil {
 		return nil, nil
@@ -914,6 +931,18 @@ func c51KeySources(c *Ctx, p c51Params, ftPk *packages.Package, sites []c51CtorS
 				ranged, ok := s.f.rangeVal[s.info.Uses[id]]
 				if !ok {
 					return true
+				}
+				// through a local alias of the positions slice (pos := kc.Positions; for _, p := range pos)
+				for hop := 0; hop < 4; hop++ {
+					lid, isId := ast.Unparen(ranged).(*ast.Ident)
+					if !isId {
+						break
+					}
+					ds := s.f.defs[s.info.Uses[lid]]
+					if len(ds) != 1 || ds[0].idx >= 0 {
+						break
+					}
+					ranged = ds[0].rhs
 				}
 				if sel, ok := ast.Unparen(ranged).(*ast.SelectorExpr); ok {
 					if sl := s.info.Selections[sel]; sl != nil && sl.Obj() == types.Object(posField) {
